@@ -81,3 +81,56 @@ def evse_accepts(e, pilot):
     ok = any(abs(p - r) <= ATOL for r in rates)
     dist = min(abs(abs(p - r) - ATOL) for r in rates)
     return ok, dist
+
+
+# ------------------------------------------------------------ battery laws
+def ideal_ref(cap, c0, pmax, pilot, V, T_min):
+    """(rate A, charge after) for the ideal battery: min(pilot power, max power, power to fill)."""
+    h = T_min / 60.0
+    power = min(pilot * V / 1000.0, pmax, (cap - c0) / h)
+    return power * 1000.0 / V, c0 + power * h
+
+
+def l2_ref(cap, c0, pmax, tsoc, pilot, V, T_min):
+    """Charge after T for the two-stage law dE/dt = min(pV, Pmax, Pmax (1-soc)/(1-tsoc)).
+
+    Piecewise-analytic solution derived from the law (not from the repository's formulas):
+    constant-power phase at r = min(pV, Pmax) while r <= envelope(soc), i.e. soc <= s*;
+    afterwards 1-soc decays exponentially with rate Pmax/(cap (1-tsoc)).
+    """
+    h = T_min / 60.0
+    s0 = c0 / cap
+    m = pmax / cap
+    r = min(pilot * V / 1000.0 / cap, m)
+    if r <= 0 or s0 >= 1:
+        return c0
+    s_star = 1 - r * (1 - tsoc) / m
+    k = m / (1 - tsoc)
+    if s0 < s_star:
+        t1 = (s_star - s0) / r
+        if t1 >= h:
+            s = s0 + r * h
+        else:
+            s = 1 - (1 - s_star) * math.exp(-k * (h - t1))
+    else:
+        s = 1 - (1 - s0) * math.exp(-k * h)
+    return s * cap
+
+
+def l2_regime(cap, c0, pmax, tsoc, pilot, V, T_min):
+    h = T_min / 60.0
+    s0 = c0 / cap
+    m = pmax / cap
+    a = pilot * V / 1000.0 / cap
+    r = min(a, m)
+    if pilot == 0:
+        return "zero-pilot"
+    if s0 >= 1 - 1e-15:
+        return "full"
+    s_star = 1 - r * (1 - tsoc) / m
+    if s0 >= s_star:
+        return "rampdown" if a >= m else "pilot-below-envelope-start-in-rampdown"
+    t1 = (s_star - s0) / r
+    if t1 >= h:
+        return "pilot-limited-below-transition" if a < m else "power-limited-below-transition"
+    return "crossing"
